@@ -6,11 +6,14 @@ dtype; failing view ops: index, reshape, transpose; failing in-place updates: in
 assignment) inserted at random positions (thorough: at every position of short histories), some after a mid-history backward.
 Oracles on /repo: (a) the statement raises; (b) right after it every live tensor has the same value, shape, constant flag, base,
 sharing relations, writeable flag, gradient and creator/consumer state as right before; (c) final values and gradients equal
-those of the same program with the failing statements removed; (d) the functional model (Coq) agrees with the final state."""
+those of the same program with the failing statements removed; (d) the functional model (Coq) agrees with the final state;
+(e) pointer level (harness/heapcorr.py, Model/Heap.v): after every statement -- half of the in-place statements fail by design, some after
+clear_graph() -- the whole object graph equals the model's heap, in which a failing in-place statement provably restores every table."""
 import copy
 import json
 
 import graphhist as gh
+import heapcorr
 import inplace
 import progs
 from c04 import replay_mirror
@@ -184,6 +187,9 @@ def run(rep, work, tier, seed, props, replay=None):
     if bad and not real:
         i = sorted(bad, key=lambda i: len(builders[i].stmts))[0]
         rep.violation({"kind": "final values or gradients differ from the model, in which a raising statement is a no-op", "stmts": builders[i].stmts, "n_disagreements": len(bad)})
+    # pointer-level correspondence (Model/Heap.v): half of the in-place statements fail by design, clear_graph() between statements (stale views)
+    heap_cov = heapcorr.run(rep, work, seed + 101, 2500 if tier == "thorough" else 400, 30 if tier == "thorough" else 18, replay=replay, tag="c13heap", p_fail=0.5, p_clear=0.08,
+                            label="pointer-level heap (failing in-place operations)")
     if not props["ok"]:
         rep.violation({"kind": "proof obligations of Props/C13.v no longer check", "broken": "Props/C13.v", "log": props["log"][-1500:]}, no_input=not (real or bad))
 
@@ -201,5 +207,6 @@ def run(rep, work, tier, seed, props, replay=None):
         "histories_with_violations": len(real), "known_finding_histories": sum(known_hits.values()),
         "traces_validated_against_impl": len(ok_idx) - len(bad), "model_impl_disagreements": len(bad),
         "input_distribution": {"statements": gh.op_histogram(builders)},
+        "pointer_level_heap": heap_cov,
     })
     rep.assumptions += ["failures are provoked through arguments (shape, index, axis, dtype, read-only/oversized targets); faults inside NumPy kernels (MemoryError, FloatingPointError) are not injected"]
